@@ -10,6 +10,7 @@ A *shell model* is {"model": <abstract model>, "enc": [fqn of the encapsulee], "
 """
 from hypothesis import strategies as st
 
+from vf import dictionary
 from vf.model import declarations, lookup, spellings
 
 CXX_KEYWORDS = set('''alignas alignof and and_eq asm auto bitand bitor bool break case catch char
@@ -27,26 +28,46 @@ GENERATED_LOCALS = {'r', 'identifier', 'port', 'lockAndData', 'm_dispatcher', 'm
                     'm_runtime', 'm_locator', 'locator', 'prototypeLocator', 'multiclientLog',
                     'encapsuleeInstanceName', 'parentComponentMeta'}
 
-NS_POOL = ['My', 'Project', 'Sub', 'Hal', 'a', 'b', 'N1', 'n_2', 'Types', 'X', 'Very_Long_Namespace_Name']
-TYPE_POOL = ['IApi', 'IHw', 'Result', 'Info', 'T', 'Status', 'IApi', 'Result', 'ICtl', 'x1', 'E',
+G_NS_POOL = ['My', 'Project', 'Sub', 'Hal', 'a', 'b', 'N1', 'n_2', 'Types', 'X', 'Very_Long_Namespace_Name']
+G_TYPE_POOL = ['IApi', 'IHw', 'Result', 'Info', 'T', 'Status', 'IApi', 'Result', 'ICtl', 'x1', 'E',
              'Long_Type_Name_0123456789', 'i', 'Msg', 'IHw']
-COMP_POOL = ['Toaster', 'Ctl', 'C', 'comp_1', 'Heater', 'MySystem']
-PORT_POOL = ['api', 'hw', 'hw2', 'cfg', 'p', 'Port', 'ctrl_1', 'q', 'heater', 'X', 'veryLongPortName_01',
+G_COMP_POOL = ['Toaster', 'Ctl', 'C', 'comp_1', 'Heater', 'MySystem']
+G_PORT_POOL = ['api', 'hw', 'hw2', 'cfg', 'p', 'Port', 'ctrl_1', 'q', 'heater', 'X', 'veryLongPortName_01',
              'api2', 'apiX']
 PREFIX_PORT_POOL = ['api', 'api2', 'apiX', 'ap', 'hw', 'hw2', 'p', 'p1', 'p10']
-EVENT_POOL = ['Claim', 'Release', 'Grab', 'Unclaim', 'Start', 'Stop', 'Ok', 'Fail', 'Tripped', 'On',
+G_EVENT_POOL = ['Claim', 'Release', 'Grab', 'Unclaim', 'Start', 'Stop', 'Ok', 'Fail', 'Tripped', 'On',
               'Get', 'e1', 'E', 'claim', 'release', 'Release_', 'Set_value', 'x']
-FORMAL_POOL = ['info', 'why', 'x', 'n', 'msg', 'value', 'arg1', 'p_', 'Info', 'y', 'z']
-FIELD_POOL = ['Ok', 'Fail', 'Error', 'Yes', 'No', 'f0', 'A', 'b', 'Busy']
+G_FORMAL_POOL = ['info', 'why', 'x', 'n', 'msg', 'value', 'arg1', 'p_', 'Info', 'y', 'z']
+G_FIELD_POOL = ['Ok', 'Fail', 'Error', 'Yes', 'No', 'f0', 'A', 'b', 'Busy']
 
 # names the generated shell uses for its own members and helper types
 API_NAMES = ['Locator', 'FinalConstruct', 'Dispatcher', 'Runtime', 'Sts', 'Mts', 'ILog', 'Arbitered',
              'MultiClientSelector', 'MutexWrapped', 'StrictPort']
 
+# not usable as model identifiers in a dictionary draw: names of the harness' own C++ (namespaces of
+# the mock runtime / recorder, members of the mock component and interface structs), macros of the
+# standard headers, identifiers reserved to the C++ implementation
+HARNESS_NAMES = {'xt', 'vf', 'vs', 'dzn_meta', 'dzn_runtime', 'dzn_locator', 'check_bindings', 'connect',
+                 'NULL', 'EOF', 'assert', 'errno', 'stdin', 'stdout', 'stderr', 'TRUE', 'FALSE', 'linux',
+                 'unix', 'main', 'argc', 'argv', 'S'}
+
+
+def dict_words():
+    """Identifier-shaped words of the library's own string literals that a Dezyne model may use as a
+    name and that neither the harness nor a listed finding excludes."""
+    bad = CXX_KEYWORDS | GENERATED_LOCALS | HARNESS_NAMES
+    def ok(w):
+        return w not in bad and '__' not in w and not (w[0] == '_' and (len(w) == 1 or w[1].isupper())) \
+            and len(w) <= 24
+    short = [w for w in dictionary.words('short') if ok(w)]
+    rest = [w for w in dictionary.words('strings', exclude=short) if ok(w)]
+    return short, rest
+
+
 FEATURES = ['deep_ns', 'global_enc', 'shared_itf', 'empty_itf', 'no_ports', 'inout_mix',
             'out_many_formals', 'nested_enum', 'outer_enum', 'injected', 'same_name_siblings',
             'multi_id_ns', 'reopened_ns', 'system_enc', 'partial_spelling', 'distractors',
-            'many_ports', 'subint_reply', 'bool_reply', 'mc_ready', 'ref_extern', 'prefix_ports', 'mirror_ns', 'many_provides', 'prefix_ns', 'many_requires', 'shadow_ns', 'repeat_ns', 'name_like_ns', 'api_names']
+            'many_ports', 'subint_reply', 'bool_reply', 'mc_ready', 'ref_extern', 'prefix_ports', 'mirror_ns', 'many_provides', 'prefix_ns', 'many_requires', 'shadow_ns', 'repeat_ns', 'name_like_ns', 'api_names', 'dict_names']
 
 
 def _uniq(draw, pool, taken, n=1):
@@ -68,6 +89,23 @@ def shell_model(draw, force=None, max_ports=6, collide=False):  # pylint: disabl
         feats |= set(force)
     if collide:
         feats |= {'same_name_siblings', 'distractors'}
+    if 'dict_names' in feats:
+        # names drawn from the literals of the code under test (vf/dictionary.py): a handful per
+        # model, three quarters from the short literals (names, tags, comparison operands)
+        short, rest = dict_words()
+        some = draw(st.lists(st.sampled_from(short), min_size=14, max_size=22, unique=True)) + \
+            draw(st.lists(st.sampled_from(rest), min_size=3, max_size=6, unique=True))
+        some = draw(st.permutations(some))
+        # three disjoint groups: a C++ class may not have a member named like itself (the mock
+        # component's ports, the enum struct's enumerators)
+        NS_POOL = TYPE_POOL = COMP_POOL = some[:len(some) // 2]  # pylint: disable=invalid-name
+        PORT_POOL = some[len(some) // 2:len(some) * 3 // 4] + ['p']  # pylint: disable=invalid-name
+        FIELD_POOL = some[len(some) * 3 // 4:] + ['f0']  # pylint: disable=invalid-name
+        EVENT_POOL = draw(st.lists(st.sampled_from(short), min_size=8, max_size=12, unique=True))  # pylint: disable=invalid-name
+        FORMAL_POOL = draw(st.lists(st.sampled_from(short), min_size=5, max_size=8, unique=True))  # pylint: disable=invalid-name
+    else:
+        NS_POOL, TYPE_POOL, COMP_POOL, FIELD_POOL, PORT_POOL, EVENT_POOL, FORMAL_POOL = \
+            G_NS_POOL, G_TYPE_POOL, G_COMP_POOL, G_FIELD_POOL, G_PORT_POOL, G_EVENT_POOL, G_FORMAL_POOL
 
     # ---- namespace skeleton: scope paths (prefix closed)
     depth = draw(st.integers(2, 4)) if 'deep_ns' in feats else draw(st.integers(0, 2))
@@ -134,6 +172,8 @@ def shell_model(draw, force=None, max_ports=6, collide=False):  # pylint: disabl
     decls = []  # (scope, element)
 
     def pool_for(pool):
+        if 'dict_names' in feats:
+            return TYPE_POOL
         return pool[:4] if ('same_name_siblings' in feats or collide) else pool
 
     # ---- externs
@@ -173,7 +213,7 @@ def shell_model(draw, force=None, max_ports=6, collide=False):  # pylint: disabl
     subints = []
     if 'subint_reply' in feats:
         sc = draw(st.sampled_from(scopes))
-        nm = _uniq(draw, ['Small', 'Idx', 'T'], names_in[sc])
+        nm = _uniq(draw, pool_for(['Small', 'Idx', 'T', 'Sub_t']), names_in[sc])
         e = {'k': 'subint', 'name': [nm], 'lo': draw(st.integers(-3, 0)), 'hi': draw(st.integers(1, 9))}
         subints.append((sc, e))
         decls.append((sc, e))
